@@ -144,13 +144,28 @@ def mono_stream(rep, tier, seed, harness, model, wd):
         ok, why = R.judge_rt(c, a)
         if not ok:
             bad.append((c, a, why))
-    rep.coverage["monomorphic_types"] = {"types": len(names), "cases": len(cases), "failing": len(bad),
+    # long values of the concrete sequence types (on both sides of 1024 elements), judged on the implementation alone
+    # (the extracted model reads lists quadratically)
+    longc = []
+    for n in names:
+        t = G.ty_of_text(n)
+        if t[0] == "seq" and t[1] in ("vec", "ll", "slice") and t[3][0] == "prim" and t[3][1] != "unit":
+            for k in (1023, 1024, 1025, 3000):
+                items = [G.gen_prim_value(rng, t[3][1]) for _ in range(k)]
+                val = "b" + "".join("%02x" % int(x[1:]) for x in items) if (t[3][1] == "u8" and t[1] != "ll") else "(0 " + " ".join(items) + ")"
+                longc.append(R.mk(None, t, val, "00"))
+    limpl = C.run_sharded(harness, "static", [f"mrt {C.codec_line(c)[3:]}" for c in longc], wd, "mono.long", shards=8)
+    for c, a in zip(longc, limpl):
+        ok, why = R.judge_rt(c, a)
+        if not ok:
+            bad.append((c, a[:300], why))
+    rep.coverage["monomorphic_types"] = {"types": len(names), "cases": len(cases), "long_values": len(longc), "failing": len(bad),
                                          "disagreements": len(dis), "sample": hl[0][:100]}
     rep.coverage["evaluations"] = rep.coverage.get("evaluations", 0) + len(cases)
     if bad:
         c, a, why = bad[0]
         rep.violation(f"{why}: mrt {C.codec_line(c)[3:160]}",
-                      {"kind": "case", "case": "mrt " + C.codec_line(c)[3:], "implementation": a, "why": why,
+                      {"kind": "case", "case": "mrt " + C.codec_line(c)[3:5000], "implementation": a, "why": why,
                        "n_failing": len(bad), "rerun": "printf '<case>\\n' > f && .cache/target/release/dharness static f"})
     elif dis:
         rep.violation("model/implementation correspondence no longer checks on the monomorphic catalogue: " + dis[0][0][:120],
